@@ -921,6 +921,10 @@ fn hist_script(names: std::sync::Arc<Names>, sd: std::sync::Arc<SpecDump>, probe
                                     sigs.insert("reload-content-differs:string-blank-or-empty".to_string());
                                 } else if merged_text_view(&v1) == merged_text_view(&v2) {
                                     sigs.insert("reload-content-differs:adjacent-text-merged".to_string());
+                                } else if merged_text_view(&normalise_view(&v1)) == merged_text_view(&normalise_view(&v2)) {
+                                    // both recorded classes at once (e.g. an attribute value with a trailing blank set while
+                                    // neighbouring text items exist): nothing else differs
+                                    sigs.insert("reload-content-differs:string-blank-and-adjacent-text".to_string());
                                 } else {
                                     sigs.insert("reload-content-differs".to_string());
                                 }
